@@ -204,3 +204,32 @@ func TestLbvcScenarioAuthz(t *testing.T) {
 		t.Logf("other symptoms (not attributed to this obligation): %s", strings.Join(problems, "; "))
 	}
 }
+
+// The authorisation switch is what the configuration file says under its own key.
+func TestLbvcScenarioAuthzSwitch(t *testing.T) {
+	var problems []string
+	for _, c := range []struct{ auth, authz string }{{"", "true"}, {"false", "true"}, {"true", "false"}, {"true", "true"}, {"false", "false"}} {
+		dir, err := os.MkdirTemp("", "lbvc-cfg-")
+		if err != nil {
+			t.Skip(err)
+		}
+		content := "tls:\n"
+		if c.auth != "" {
+			content += "  client.auth.enabled: " + c.auth + "\n"
+		}
+		content += "  client.authz.enabled: " + c.authz + "\n"
+		file := dir + "/liftbridge.yaml"
+		os.WriteFile(file, []byte(content), 0o644)
+		cfg, err := NewConfig(file)
+		os.RemoveAll(dir)
+		if err != nil {
+			continue
+		}
+		if want := c.authz == "true"; cfg.TLSClientAuthz != want {
+			problems = append(problems, fmt.Sprintf("configuration file with tls.client.auth.enabled=%q and tls.client.authz.enabled=%q: client authorisation is %v", c.auth, c.authz, cfg.TLSClientAuthz))
+		}
+	}
+	if len(problems) > 0 {
+		t.Fatalf("LBVC-REPRODUCED (obligation %s): %s", os.Getenv("LBVC_OBLIGATION"), strings.Join(problems, "; "))
+	}
+}
